@@ -30,7 +30,7 @@ ASSUMPTIONS = ["absent requested labels always come with a fill_value"]
 
 @st.composite
 def cases(draw, tier="quick"):
-    n = draw(st.integers(3, 24))
+    n = draw(st.integers(3, 24)) if draw(st.integers(0, 4)) else draw(st.integers(25, 44))
     lab = gen.draw_labels(draw, n, kinds=["int", "negint", "float", "str", "bigint", "u1", "u8", "i2"], max_groups=8,
                           styles=["random", "random", "periodic", "blocks", "runs", "sorted"])  # fmt: skip
     prov = draw(st.booleans())
@@ -58,7 +58,7 @@ def cases(draw, tier="quick"):
             case["fill_value"] = 0 if func in ("argmax",) else draw(st.sampled_from(["nan", 0]))
         case["expected"] = {"labels": labels, "as": draw(st.sampled_from(["array", "index", "list"]))}
     case["engine"] = draw(st.sampled_from(["numpy", None, "flox", "numbagg"]))
-    chunks = [gen.draw_chunks(draw, n, max_blocks=8)]
+    chunks = [gen.draw_chunks(draw, n, max_blocks=8 if n <= 24 else 20)]
     ok_blockwise = len(chunks[0]) == 1 or runs_are_sequential(lab["spec"]["v"])
     methods = [None, "map-reduce", "cohorts"] + (["blockwise"] if ok_blockwise else [])
     plans = []
